@@ -109,6 +109,37 @@ func genToolGrammar(r *rng, lr bool) (toolInput, *gen.Grammar) {
 		g = gen.Generate(r2{r}, cfg)
 	}
 	po := gen.PrintOptions{Semi: r.chance(1, 6), JoinLines: r.chance(1, 6) || (lr && r.chance(1, 3))}
+	if r.chance(1, 3) {
+		// code blocks in the spellings people write: stubs, blank lines, braces
+		// inside strings and comments
+		seedc := r.u64()
+		po.Code = func(s gen.SiteInfo) string {
+			ret := "return nil, nil"
+			switch s.Kind {
+			case gen.State:
+				ret = "return nil"
+			case gen.AndCode, gen.NotCode:
+				ret = "return true, nil"
+			}
+			switch (seedc + uint64(s.Site)*2654435761) % 9 {
+			case 0:
+				return "{\n}"
+			case 1:
+				return "{}"
+			case 2:
+				return "{\n\n}"
+			case 3:
+				return "{\n\t" + ret + "\n}"
+			case 4:
+				return "{ /* } */ " + ret + " }"
+			case 5:
+				return "{ s := \"}{\"; _ = s; " + ret + " }"
+			case 6:
+				return "{\n\t// }\n\t" + ret + "\n}"
+			}
+			return "{ " + ret + " }"
+		}
+	}
 	if r.chance(1, 4) {
 		po.Arrow = []string{"<-", "=", "←", "⟵"}
 	}
